@@ -17,7 +17,9 @@ import json
 import multiprocessing
 import os
 import random
+import shutil
 import sys
+import tempfile
 import time
 
 import common
@@ -26,6 +28,7 @@ from common import err_code
 PROP = 18
 FN_PF = 1        # parallel_function
 FN_PE = 2        # parallel_execute
+FN_PP = 3        # record_processing.pre_process_sequences (both uses of parallel_function)
 SPEC_OFFSET = 10
 
 E_RUNTIME = common.ERR["RuntimeError"]
@@ -73,13 +76,43 @@ def result_value(i, x):
     return -x - i
 
 
-def work(i, x, delay, fault):
-    """ the generic task: sleeps, then returns a value, raises, or kills its own (worker) process """
+_SYNC_DIR = None       # directory of the "go" file of the running case (inherited by the forked pool workers)
+SYNC_WAIT = 1          # the task blocks until the go file exists (or SYNC_CAP seconds have passed)
+SYNC_SIGNAL = 2        # the task creates the go file when it starts
+SYNC_CAP = 30.0
+
+
+def _go_path():
+    return os.path.join(_SYNC_DIR, "go") if _SYNC_DIR else None
+
+
+def _signal_go(path=None):
+    path = path or _go_path()
+    if path:
+        with open(path, "w"):
+            pass
+
+
+def _wait_go():
+    path = _go_path()
+    end = time.monotonic() + SYNC_CAP
+    while path and not os.path.exists(path) and time.monotonic() < end:
+        time.sleep(0.01)
+
+
+def work(i, x, delay, fault, sync=0):
+    """ the generic task: sleeps / waits for or gives the go signal, then returns a value, raises, or kills its
+        own (worker) process.  Orderings the expected outcome depends on are enforced through the go file
+        (an event), never through the length of a sleep """
     _mark(i, 0, time.monotonic())
     _mark(i, 2, float(os.getpid()))
     try:
+        if sync == SYNC_SIGNAL:
+            _signal_go()
         if delay:
             time.sleep(delay)
+        if sync == SYNC_WAIT:
+            _wait_go()
         if fault == CRASH:
             if os.getpid() != _INPROC_PID:
                 os._exit(3)
@@ -208,24 +241,34 @@ def _outcome(fn):
 
 def run_impl(spec):
     """ executed in a helper process: returns the sequential outcomes, the implementation's output and a trace """
-    global _TRACE, _INPROC_PID
+    global _TRACE, _INPROC_PID, _SYNC_DIR
     common.setup_repo_path()
     _config()
     from antismash.config import update_config
     from antismash.common.subprocessing import base
     _INPROC_PID = os.getpid()
     update_config({"cpus": spec["cfg"]})
+    if spec["kind"] == "preproc":
+        return run_preproc(spec)
+    if spec["kind"] == "cassis":
+        return run_cassis(spec)
     cpus = spec["cpus"]           # None, 0, or an integer
     timeout = spec["timeout"]
     kind = spec["kind"]
+    go_file = spec.get("go")      # exec: the file a blocking command polls for
+    _SYNC_DIR = None
     if kind == "work":
         tasks = spec["tasks"]
         _TRACE = None
         seq = [_outcome(lambda i=i, t=t: digest(canon(work(i, t[0], 0, t[2])))) for i, t in enumerate(tasks)]
-        args = [[i, t[0], t[1], t[2]] for i, t in enumerate(tasks)]
+        # a task that waits for the go signal does not sleep: its delay is nominal (used for planning only)
+        args = [[i, t[0], 0 if t[3:4] == [SYNC_WAIT] else t[1], t[2], t[3] if len(t) > 3 else 0]
+                for i, t in enumerate(tasks)]
         function = work
         to_digest = lambda r: digest(canon(r))
         _TRACE = multiprocessing.RawArray("d", 3 * max(1, len(tasks)))
+        if any(len(t) > 3 and t[3] for t in tasks):
+            _SYNC_DIR = tempfile.mkdtemp(prefix="c18_sync_")
     elif kind == "record":
         from antismash.common import record_processing
         if spec["fn"] == "identity":
@@ -243,7 +286,11 @@ def run_impl(spec):
     elif kind == "exec":
         # parallel_execute: commands are real child processes; the sequential outcome is child_process(command)
         function = None
+        if go_file:
+            _signal_go(go_file)           # in-process the blocking command returns at once
         seq = [_outcome(lambda c=c: base.child_process(list(c))) for c in spec["commands"]]
+        if go_file:
+            os.unlink(go_file)
         args = [list(c) for c in spec["commands"]]
         to_digest = lambda r: r
         _TRACE = None
@@ -258,7 +305,7 @@ def run_impl(spec):
 
     t0 = time.monotonic()
     try:
-        results = common.call_with_timeout(call, spec.get("alarm", 60))
+        results = common.call_with_timeout(call, spec.get("alarm", 120))
         if not isinstance(results, list):
             out = [1, 98]     # not a list at all
         else:
@@ -267,10 +314,278 @@ def run_impl(spec):
         out = [1, E_HANG]
     except Exception as exc:  # pylint: disable=broad-except
         out = [1, err_code(exc)]
+    finally:
+        # release whatever still waits (pool workers are terminated by parallel_function, children of
+        # parallel_execute are not)
+        if go_file:
+            _signal_go(go_file)
+        if _SYNC_DIR:
+            _signal_go()
     t1 = time.monotonic()
     trace = list(_TRACE) if _TRACE is not None else None
     _TRACE = None
+    if _SYNC_DIR:
+        shutil.rmtree(_SYNC_DIR, ignore_errors=True)
+        _SYNC_DIR = None
     return {"seq": seq, "out": out, "trace": trace, "t0": t0, "t1": t1}
+
+
+# ---------------------------------------------------------------- pre_process_sequences (the real caller)
+
+SKIP_CODES = [("contains no sequence", 1), ("did not match filter", 2), ("smaller than minimum length", 3),
+              ("skipping all but largest", 4), ("No genes found", 5), ("preset", 9)]
+
+
+def skip_code(skip):
+    if not skip:
+        return 0
+    for prefix, code in SKIP_CODES:
+        if str(skip).startswith(prefix):
+            return code
+    return 98
+
+
+def run_on_record(record, options):  # pylint: disable=unused-argument
+    """ the gene finder of the pre-processing runs (this module is handed over as `genefinding`): deterministic
+        genes derived from the record's id and (sanitised) sequence; ids ending in gf0/gfv/gfk find nothing /
+        raise ValueError / raise KeyError """
+    from antismash.common.secmet.test.helpers import DummyCDS
+    if record.id.endswith("gf0"):
+        return
+    if record.id.endswith("gfv"):
+        raise ValueError(f"gene finding failed for {record.id}")
+    if record.id.endswith("gfk"):
+        raise KeyError(record.id)
+    length = len(record.seq)
+    pos, num = 3, 0
+    while pos + 30 <= length and num < 3:
+        record.add_cds_feature(DummyCDS(pos, pos + 30, strand=1 if num % 2 == 0 else -1,
+                                        locus_tag=f"gf_{record.id}_{num}"))
+        pos += 45
+        num += 1
+
+
+def build_pp_record(spec):
+    """ a real secmet Record: sequence, id/name/description, annotations, CDS features, a gene and a generic
+        feature, optionally a skip flag set by an earlier stage """
+    from Bio.Seq import Seq
+    from antismash.common.secmet import Record
+    from antismash.common.secmet.locations import FeatureLocation
+    from antismash.common.secmet.features import CDSFeature, Feature, Gene
+    rec = Record(Seq(spec["seq"]), id=spec["id"], name=spec.get("name", spec["id"]), description=spec["desc"],
+                 transl_table=11)
+    rec.annotations["molecule_type"] = "DNA"
+    rec.annotations["topology"] = "circular" if spec["circular"] else "linear"
+    rec.annotations["source"] = "harness C18"
+    if spec.get("accession"):
+        rec.annotations["accession"] = spec["accession"]
+    for num, (start, end, strand) in enumerate(spec["cdses"]):
+        name = f"{spec['tag']}_c{num}"
+        rec.add_gene(Gene(FeatureLocation(start, end, strand), locus_tag=name))
+        rec.add_cds_feature(CDSFeature(FeatureLocation(start, end, strand), translation="M" + "A" * ((end - start) // 3 - 1),
+                                       locus_tag=name, product=f"product {num}"))
+    for start, end in spec["misc"]:
+        feature = Feature(FeatureLocation(start, end, 1), feature_type="misc_feature")
+        feature.notes.append(f"note {start}")
+        rec.add_feature(feature)
+    if spec.get("skip"):
+        rec.skip = spec["skip"]
+    return rec
+
+
+def pp_fields(rec):
+    """ the record field by field, as the rest of antiSMASH can observe it """
+    from antismash.common.secmet import Record
+    if not isinstance(rec, Record):
+        return {"not-a-record": repr(type(rec))}
+    feats = []
+    for feature in rec.all_features:
+        bio = feature.to_biopython()
+        feats.append([feature.type, str(feature.location),
+                      [[b.type, str(b.location), sorted((k, list(v) if isinstance(v, list) else v)
+                                                        for k, v in b.qualifiers.items())] for b in bio]])
+    return {"id": rec.id, "name": rec.name, "description": rec.description, "seq": str(rec.seq), "skip": rec.skip,
+            "record_index": rec.record_index, "original_id": rec.original_id,
+            "annotations": sorted((k, repr(v)) for k, v in rec.annotations.items()),
+            "features": feats, "cds_names": [cds.get_name() for cds in rec.get_cds_features()],
+            "circular": rec.is_circular(), "transl_table": rec.transl_table}
+
+
+REST_FIELDS = ("name", "description", "original_id", "annotations", "features", "circular", "transl_table")
+
+
+def pp_encode(fields, idnum):
+    """ model encoding of one record: id index skip ncds rest seq """
+    rest = digest([fields[k] for k in REST_FIELDS])
+    seq = [ord(c) for c in fields["seq"]]
+    return [idnum.get(fields["id"], -1), fields["record_index"] if fields["record_index"] is not None else 0,
+            skip_code(fields["skip"]), len(fields["cds_names"]), rest, len(seq)] + seq
+
+
+def run_preproc(spec):
+    """ pre_process_sequences on a batch of fresh Records with the configured number of workers """
+    from antismash.config import update_config, get_config
+    from antismash.common import record_processing
+    opts = spec["opts"]
+    update_config({"cpus": spec["cfg"], "minlength": opts["minlength"], "limit": opts["limit"],
+                   "limit_to_record": opts["target"], "reuse_results": opts["reuse"],
+                   "skip_sanitisation": opts["skip_sanitisation"], "allow_long_headers": False,
+                   "genefinding_tool": opts["tool"], "genefinding_gff3": opts["gff3"], "taxon": "bacteria",
+                   "triggered_limit": False})
+    idnum = {r["id"]: i + 1 for i, r in enumerate(spec["records"])}
+    # the inputs as the model sees them, and the gene finder's outcome on every (sanitised) record
+    inputs, table = [], []
+    for i, rspec in enumerate(spec["records"]):
+        rec = build_pp_record(rspec)
+        fields = pp_fields(rec)
+        enc = pp_encode(fields, idnum)
+        inputs.append([enc[0]] + enc[2:])      # id skip ncds rest seq (no index)
+        if rspec["cdses"]:
+            continue                           # the gene finder is only ever called on records without CDS features
+        try:
+            rec.record_index = i + 1
+            record_processing.sanitise_sequence(rec)
+            run_on_record(rec, None)
+            after = pp_encode(pp_fields(rec), idnum)
+            table.append([i + 1, 0, after[3], after[4]])
+        except Exception as exc:  # pylint: disable=broad-except
+            table.append([i + 1, 1, err_code(exc)])
+    records = [build_pp_record(r) for r in spec["records"]]
+    genefinding = sys.modules[__name__]
+
+    def call():
+        return record_processing.pre_process_sequences(records, get_config(), genefinding)
+
+    dump = None
+    try:
+        results = common.call_with_timeout(call, spec.get("alarm", 120))
+        if not isinstance(results, list):
+            out = [1, 98]
+        else:
+            dump = [pp_fields(r) for r in results]
+            out = [0, 1 if get_config().triggered_limit else 0, len(dump)]
+            for fields in dump:
+                out += pp_encode(fields, idnum)
+    except common.Timeout:
+        out = [1, E_HANG]
+    except Exception as exc:  # pylint: disable=broad-except
+        out = [1, err_code(exc)]
+        dump = ["error", type(exc).__name__]
+    return {"out": out, "dump": dump, "inputs": inputs, "table": table}
+
+
+# ---------------------------------------------------------------- cassis run_meme / run_fimo (callers of parallel_execute)
+
+STUB_TOOL = """#!/bin/sh
+# stands in for meme/fimo: writes the output file into the -oc directory, exit code from the directory name (.._eN)
+out=""
+prev=""
+for a in "$@"; do
+  if [ "$prev" = "-oc" ]; then out="$a"; fi
+  prev="$a"
+done
+mkdir -p "$out"
+echo "made by $0 $#" > "$out/@OUTPUT@"
+code=${out##*_e}
+exit $code
+"""
+
+
+def run_cassis(spec):
+    """ detection/cassis/runners.run_meme or run_fimo with stub executables on PATH: the sum of the return codes and
+        the files that exist afterwards """
+    from antismash.config import get_config
+    from antismash.detection.cassis import runners
+    from antismash.common.secmet import Record
+    top = tempfile.mkdtemp(prefix="c18_cassis_")
+    old_path = os.environ.get("PATH", "")
+    try:
+        bindir = os.path.join(top, "bin")
+        os.makedirs(bindir)
+        for tool, output in (("meme", "meme.xml"), ("fimo", "fimo.txt")):
+            path = os.path.join(bindir, tool)
+            with open(path, "w") as handle:
+                handle.write(STUB_TOOL.replace("@OUTPUT@", output))
+            os.chmod(path, 0o755)
+        os.environ["PATH"] = bindir + os.pathsep + old_path
+        meme_dir = os.path.join(top, "meme")
+        fimo_dir = os.path.join(top, "fimo")
+        os.makedirs(meme_dir)
+        for name, has_input, has_output, _code in spec["dirs"]:
+            os.makedirs(os.path.join(meme_dir, name))
+            if spec["fn"] == "meme":
+                if has_input is not None:
+                    with open(os.path.join(meme_dir, name, "promoters.fasta"), "w") as handle:
+                        handle.write(">p\nACGT\n" if has_input else "")
+                if has_output:
+                    with open(os.path.join(meme_dir, name, "meme.xml"), "w") as handle:
+                        handle.write("earlier run")
+            else:
+                if has_input is not None:
+                    for filename in ("meme.html", "binding_sites.fasta"):
+                        with open(os.path.join(meme_dir, name, filename), "w") as handle:
+                            handle.write("content" if has_input else "")
+                if has_output:
+                    os.makedirs(os.path.join(fimo_dir, name))
+                    with open(os.path.join(fimo_dir, name, "fimo.txt"), "w") as handle:
+                        handle.write("earlier run")
+
+        def call():
+            if spec["fn"] == "meme":
+                return runners.run_meme(meme_dir, get_config(), False)
+            options = get_config()
+            from antismash.config import update_config
+            update_config({"output_dir": top})
+            record = Record("ACGT", id="rec", name="rec")
+            return runners.run_fimo(meme_dir, fimo_dir, record, options, False)
+
+        try:
+            value = common.call_with_timeout(call, 120)
+            out = [0, value]
+        except common.Timeout:
+            out = [1, E_HANG]
+        except Exception as exc:  # pylint: disable=broad-except
+            out = [1, err_code(exc)]
+        made = []
+        base_dir = meme_dir if spec["fn"] == "meme" else fimo_dir
+        filename = "meme.xml" if spec["fn"] == "meme" else "fimo.txt"
+        for name, _i, _o, _c in spec["dirs"]:
+            path = os.path.join(base_dir, name, filename)
+            if os.path.exists(path):
+                made.append([name, open(path).read().startswith("made by")])
+        return {"out": out, "made": sorted(made)}
+    finally:
+        os.environ["PATH"] = old_path
+        shutil.rmtree(top, ignore_errors=True)
+
+
+def cassis_expected(spec):
+    """ independent expectation: every directory with non-empty input and no earlier output is run once; the result is
+        the sum of the return codes """
+    total, made = 0, []
+    for name, has_input, has_output, code in spec["dirs"]:
+        if has_output:
+            made.append([name, False])
+        elif has_input:
+            total += code
+            made.append([name, True])
+    return [0, total], sorted(made)
+
+
+def gen_cassis_cases(rng, tier):
+    specs = []
+    ks = [1, 2, 4] if tier == "quick" else [1, 2, 3, 4, 8, 16]
+    for b in range(4 if tier == "quick" else 12):
+        for fn in ("meme", "fimo"):
+            dirs = []
+            for i in range(rng.choice([0, 1, 3, 6, 9, 9]) if b else 5):
+                code = rng.choice([0, 0, 0, 1, 2, 3])
+                has_input = rng.choice([True, True, True, False, None])
+                dirs.append((f"+{i}_-{rng.randrange(9)}_e{code}", has_input, rng.random() < 0.15, code))
+            for k in ks:
+                specs.append({"kind": "cassis", "fn": fn, "cfg": k, "cpus": None, "timeout": None, "dirs": dirs,
+                              "batch": (b, fn), "class": "cassis-" + fn})
+    return specs
 
 
 # ---------------------------------------------------------------- CPython's chunking (harness side, for planning only)
@@ -480,14 +795,17 @@ def gen_work_cases(rng, tier):
                     tasks[p][2] = fault
                 specs.append({"kind": "work", "cfg": 2, "cpus": k, "timeout": rng.choice([None, 60]), "tasks": tasks,
                               "generator": rng.random() < 0.3, "class": "fault"})
-    # two different exception kinds, the one later in argument order completes first (by a wide margin)
+    # two different exception kinds, the one later in argument order is reported first.  The order is enforced by
+    # events, not by sleeps: k workers, k + 1 single-task chunks; tasks 0..k-1 except b wait for the go signal,
+    # b raises at once, the last task (which can only run on the worker that b has freed, i.e. after b's result
+    # went into the result pipe) gives the go signal; then a raises.  Nominal delays are for planning only.
     for k in ([2, 4, 16] if not thorough else [2, 3, 4, 8, 11, 16]):
-        n = rng.randint(2, k)
-        a, b = sorted(rng.sample(range(n), 2))
+        n = k + 1
+        a, b = sorted(rng.sample(range(k), 2))
         fa, fb = rng.sample(sorted(FAULTS), 2)
-        tasks = [[rng.randrange(0, 150), 0.0, 0] for _ in range(n)]
-        tasks[a][1:] = [0.6, fa]
-        tasks[b][1:] = [0.0, fb]
+        tasks = [[rng.randrange(0, 150), 0.6, 0, SYNC_WAIT] for _ in range(k)] + [[rng.randrange(0, 150), 0.0, 0, SYNC_SIGNAL]]
+        tasks[a][2] = fa
+        tasks[b] = [rng.randrange(0, 150), 0.0, fb, 0]
         specs.append({"kind": "work", "cfg": 2, "cpus": k, "timeout": None, "tasks": tasks, "generator": False,
                       "class": "mixed-fault"})
     # the same with one worker in-process: the first in argument order surfaces
@@ -498,12 +816,14 @@ def gen_work_cases(rng, tier):
     for cpus, cfg in [(-1, 2), (-4, 1), (None, -2)]:
         specs.append({"kind": "work", "cfg": cfg, "cpus": cpus, "timeout": None,
                       "tasks": [[i, 0.0, 0] for i in range(rng.randint(0, 3))], "generator": False, "class": "bad-cpus"})
-    # timeouts: one second, the slowest task sleeps three; everything else is done within a fraction
+    # timeouts: one second; one task does not finish before the call has returned (it waits for a go signal that
+    # is only given afterwards; 3 s is its nominal duration for planning), so the outcome cannot depend on how
+    # long anything else takes
     for k in ([2, 5, 16] if not thorough else [2, 3, 4, 5, 7, 8, 12, 16] * 2):
         n = rng.choice([1, k, k + 1, 4 * k + 1])
         tasks = [[rng.randrange(0, 150), rng.choice([0.0, 0.01]), 0] for _ in range(n)]
         slow = rng.randrange(n)
-        tasks[slow][1] = 3.0
+        tasks[slow][1:] = [3.0, 0, SYNC_WAIT]
         if rng.random() < 0.3 and n > 1:
             # a raising task does not hide the timeout: the result is only ready once every chunk is done
             other = rng.choice([p for p in range(n) if p != slow])
@@ -513,7 +833,7 @@ def gen_work_cases(rng, tier):
                       "class": "timeout"})
     # timeout 0: ready at once only for the empty batch
     specs.append({"kind": "work", "cfg": 2, "cpus": 3, "timeout": 0, "tasks": [], "generator": False, "class": "timeout"})
-    specs.append({"kind": "work", "cfg": 2, "cpus": 3, "timeout": 0, "tasks": [[1, 0.3, 0], [2, 0.3, 0]],
+    specs.append({"kind": "work", "cfg": 2, "cpus": 3, "timeout": 0, "tasks": [[1, 0.3, 0, SYNC_WAIT], [2, 0.3, 0, SYNC_WAIT]],
                   "generator": False, "class": "timeout"})
     # the shortcut ignores the timeout
     specs.append({"kind": "work", "cfg": 1, "cpus": 1, "timeout": 0, "tasks": [[1, 0.01, 0], [2, 0.0, 0]],
@@ -524,7 +844,7 @@ def gen_work_cases(rng, tier):
         tasks = [[i, 0.0, 0] for i in range(n)]
         tasks[rng.randrange(n)][2] = CRASH
         specs.append({"kind": "work", "cfg": 2, "cpus": k, "timeout": timeout, "tasks": tasks, "generator": False,
-                      "class": "crash", "alarm": 4})
+                      "class": "crash", "alarm": 4 if timeout is None else 60})
     return specs
 
 
@@ -594,8 +914,11 @@ def gen_exec_cases(rng, tier):
             cfg, cpus = (k, rng.choice([None, 0])) if r < 0.3 else (2, k)
             specs.append({"kind": "exec", "cfg": cfg, "cpus": cpus, "timeout": rng.choice([None, 60]),
                           "commands": commands, "class": "exec"})
-    specs.append({"kind": "exec", "cfg": 2, "cpus": 2, "timeout": 1,
-                  "commands": [["sh", "-c", "exit 0"], ["sh", "-c", "sleep 3"]], "class": "exec-timeout"})
+    # a command that does not finish before the call has returned: it polls for a file that is created afterwards
+    go = os.path.join(tempfile.gettempdir(), f"c18_go_{os.getpid()}_{rng.randrange(10 ** 9)}")
+    blocking = f"i=0; while [ ! -e {go} ] && [ $i -lt 600 ]; do sleep 0.05; i=$((i+1)); done"
+    specs.append({"kind": "exec", "cfg": 2, "cpus": 2, "timeout": 1, "go": go,
+                  "commands": [["sh", "-c", "exit 0"], ["sh", "-c", blocking]], "class": "exec-timeout"})
     specs.append({"kind": "exec", "cfg": 2, "cpus": -2, "timeout": None, "commands": [["sh", "-c", "exit 0"]],
                   "class": "exec-bad-cpus"})
     specs.append({"kind": "exec", "cfg": 2, "cpus": 2, "timeout": None,
@@ -603,36 +926,277 @@ def gen_exec_cases(rng, tier):
     return specs
 
 
+PP_ALPHABETS = {"clean": "ACGT", "lower": "acgt", "gapped": "ACGTN-", "iupac": "ACGTRYKMSWBDHVNacgtn-",
+                "gaps-only": "N-", "n-only": "nN", "other-only": "RYKM-x*", "dash-only": "-"}
+PP_DEMO = {   # the batches of a seeded-defect demonstration, kept as fixed cases
+    "clean": ["ACGT" * 30, "GATTACA" * 20, "CCGGTTAA" * 12],
+    "dirty": ["acgt" * 30, "AC-GT-RYK" * 12, "GATTACA" * 20],
+    "scaffold gap": ["ACGT" * 30, "NNNN-nnnn-" * 10, "GATTACA" * 20, "acgtn" * 20],
+    "all empty": ["N" * 50, "n-" * 40],
+}
+
+
+def gen_pp_record(rng, i, kind, tag, gf=""):
+    length = rng.choice([40, 60, 90, 120, 200, 1100]) if kind != "short" else rng.choice([1, 5, 12])
+    alphabet = PP_ALPHABETS.get(kind, "ACGT")
+    seq = "".join(rng.choice(alphabet) for _ in range(length))
+    cdses, misc = [], []
+    has_cds = rng.random() < (0.75 if kind in ("gaps-only", "n-only", "other-only") else 0.55)
+    if has_cds and length >= 40:
+        pos = rng.randint(0, 6)
+        while pos + 12 <= length and len(cdses) < 3:
+            size = 3 * rng.randint(2, 8)
+            if pos + size > length:
+                break
+            cdses.append((pos, pos + size, rng.choice([1, -1])))
+            pos += size + rng.randint(0, 15)
+    if length >= 10 and rng.random() < 0.5:
+        misc.append((1, rng.randint(4, 9)))
+    suffix = gf if not cdses else ""
+    return {"id": f"{tag}r{i}{suffix}", "tag": f"{tag}r{i}", "desc": f"record {i} of batch {tag}", "seq": seq,
+            "circular": rng.random() < 0.3, "cdses": cdses, "misc": misc,
+            "skip": "preset by an earlier stage" if rng.random() < 0.06 else None}
+
+
+def gen_preproc_cases(rng, tier):
+    """ pre_process_sequences itself: every batch is run with each worker count, the results are compared
+        field by field with the one-worker (in-process) run and with the model """
+    thorough = tier == "thorough"
+    ks = [1, 2, 4] if not thorough else [1, 2, 3, 4, 8, 16]
+    batches = []
+    default = {"minlength": 0, "limit": -1, "target": "", "reuse": "", "skip_sanitisation": False,
+               "tool": "none", "gff3": ""}
+    for b, (name, seqs) in enumerate(PP_DEMO.items()):
+        records = [{"id": f"rec{i}", "tag": f"d{b}r{i}", "desc": name, "seq": seq, "circular": False,
+                    "cdses": [(1, 7, 1)], "misc": [], "skip": None} for i, seq in enumerate(seqs)]
+        batches.append({"records": records, "opts": dict(default), "class": "preproc"})
+    kinds = ["clean"] * 3 + ["lower", "gapped", "iupac"] * 2 + ["gaps-only", "n-only", "other-only", "short"]
+    for b in range(26 if not thorough else 150):
+        n = rng.choice([1, 2, 2, 3, 4, 5, 9, 17 if thorough else 6])
+        tag = f"b{b}"
+        gf_fault = rng.choice(["", "", "", "gfv", "gfk"])       # at most one raising kind per batch
+        records = []
+        for i in range(n):
+            kind = rng.choice(kinds) if rng.random() < 0.92 else rng.choice(["gaps-only", "dash-only"])
+            gf = rng.choice(["", "", "gf0", gf_fault])
+            records.append(gen_pp_record(rng, i, kind, tag, gf))
+        if not any(r["cdses"] and set(r["seq"]) <= set("Nn-") for r in records) and rng.random() < 0.6:
+            # an annotated record whose sequence is gaps/unknown bases only (scaffold spacer)
+            i = rng.randrange(n)
+            records[i] = gen_pp_record(rng, i, "gaps-only", tag)
+            records[i]["cdses"] = [(1, 7, 1)]
+            records[i]["id"] = records[i]["tag"]
+        if rng.random() < 0.9:
+            # most batches keep at least one analysable record, so that the run gets past the final check
+            i = rng.randrange(n)
+            records[i] = gen_pp_record(rng, i, rng.choice(["clean", "lower", "gapped"]), tag)
+            records[i]["skip"] = None
+            if not records[i]["cdses"]:
+                records[i]["cdses"] = [(3, 33, -1)]
+        opts = dict(default)
+        opts["tool"] = rng.choice(["none", "prodigal", "prodigal"])
+        r = rng.random()
+        if r < 0.25:
+            opts["minlength"] = rng.choice([13, 50, 61, 100, 1000])
+        r = rng.random()
+        if r < 0.3:
+            opts["limit"] = rng.choice([0] + [1, 2, max(1, n - 1), n, n + 1] * 3)
+        r = rng.random()
+        if r < 0.15:
+            opts["target"] = rng.choice([rec["id"] for rec in records])
+        elif r < 0.2:
+            opts["target"] = "no_such_record"
+        r = rng.random()
+        if r < 0.06:
+            opts["skip_sanitisation"] = True
+        elif r < 0.12:
+            opts["reuse"] = "previous.json"
+        elif r < 0.17:
+            opts["gff3"] = "annotations.gff3"
+        cls = "preproc"
+        r = rng.random()
+        if r < 0.12 and n >= 2:
+            # outside the model's guard (the id/name rewriting block is not transcribed): worker counts are still compared
+            cls = "preproc-ids"
+            choice = rng.randrange(4)
+            if choice == 0:
+                records[1]["id"] = records[0]["id"]
+            elif choice == 1:
+                records[0]["id"] = "a_very_long_record_identifier_contig12"
+            elif choice == 2:
+                records[0]["name"] = "a_name_longer_than_sixteen_characters"
+            else:
+                records[0]["id"] = "NZ_AMZN01000079.1"
+                records[1]["accession"] = "ACCESSION_LONGER_THAN_16"
+            if opts["target"] not in ("", "no_such_record"):
+                opts["target"] = ""
+        batches.append({"records": records, "opts": opts, "class": cls})
+    # an empty sequence is refused before anything is sent to a worker; the empty batch has all records skipped
+    empty = gen_pp_record(rng, 0, "clean", "e")
+    empty["seq"] = ""
+    empty["cdses"], empty["misc"] = [], []
+    batches.append({"records": [gen_pp_record(rng, 1, "clean", "e"), empty], "opts": dict(default), "class": "preproc"})
+    batches.append({"records": [], "opts": dict(default), "class": "preproc"})
+    specs = []
+    for b, batch in enumerate(batches):
+        for k in ks:
+            specs.append({"kind": "preproc", "cfg": k, "cpus": None, "timeout": None, "batch": b,
+                          "records": batch["records"], "opts": batch["opts"], "class": batch["class"]})
+    return specs
+
+
+def enc_pp_case(spec, res, sched1, sched2):
+    opts = spec["opts"]
+    idnum = {r["id"]: i + 1 for i, r in enumerate(spec["records"])}
+    checking = not (opts["reuse"] or opts["skip_sanitisation"])
+    flat = [PROP, FN_PP, spec["cfg"], 1 if checking else 0]
+    flat += [0] if not opts["target"] else [1, idnum.get(opts["target"], 0)]
+    flat += [opts["minlength"], opts["limit"], 1 if (not opts["gff3"] and opts["tool"] != "none") else 0]
+    flat += [len(res["inputs"])]
+    for rec in res["inputs"]:
+        flat += rec
+    flat += [len(res["table"])]
+    for entry in res["table"]:
+        flat += entry
+    for schedule in (sched1, sched2):
+        flat += [len(schedule)]
+        for kind, w in schedule:
+            flat += [kind, w]
+    return flat
+
+
+def hash_dir(entry):
+    return digest(list(entry))
+
+
+def first_difference(a, b):
+    """ where two field-by-field dumps of a result differ """
+    if not isinstance(a, list) or not isinstance(b, list) or (a[:1] == ["error"]) != (b[:1] == ["error"]):
+        return {"in-process": a if not isinstance(a, list) or a[:1] == ["error"] else "a list of records",
+                "workers": b if not isinstance(b, list) or b[:1] == ["error"] else "a list of records"}
+    if a[:1] == ["error"]:
+        return None if a == b else {"in-process": a, "workers": b}
+    if len(a) != len(b):
+        return {"number of records": [len(a), len(b)]}
+    for i, (x, y) in enumerate(zip(a, b)):
+        for key in x:
+            if x[key] != y.get(key):
+                return {"record": i, "field": key, "in-process": x[key], "workers": y.get(key)}
+    return None
+
+
 RULE = ("real multiprocessing pools: worker counts 1..16 (quick: 1,2,3,4,5,8,13,16), given directly or through the configuration "
         "(cpus None/0), invalid counts; batch sizes 0,1,k-1,k,k+1,3k+1,4k,4k+1,8k+3 (below/at/above the worker count and the "
         "chunking boundary); argument dependent sleeps (none, reversed, sawtooth, random) so that completion order differs "
         "from argument order; result values of seven shapes up to 100 kB; a raising task (8 exception kinds) at every position; "
-        "two kinds with the later one completing first; timeouts 0/1 s against 3 s tasks; dying worker processes; secmet Records "
-        "(genes, protoclusters, regions, circular) through identity, sanitise_sequence and ensure_cds_info with a stub gene finder; "
-        "parallel_execute with real child processes.  Every implementation run is compared with the model under the planned "
-        "schedule, the schedule reconstructed from the workers' time stamps and random/LIFO schedules (where the outcome is "
-        "schedule independent).  non-trivial = pool case (effective cpus > 1) with at least two chunks, or a raising/timeout/"
-        "crash case; distinct by flat encoding (schedule included)")
+        "two kinds with the later one reported first (ordering enforced by a go-file event, not by sleeps); timeouts 0/1 s against "
+        "tasks that cannot finish before the call has returned (they wait for a signal given afterwards); dying worker processes; "
+        "secmet Records (genes, protoclusters, regions, circular) through identity, sanitise_sequence and ensure_cds_info with a stub "
+        "gene finder; parallel_execute with real child processes.  Every implementation run is compared with the model under the "
+        "planned schedule, the schedule reconstructed from the workers' time stamps and random/LIFO schedules (where the outcome is "
+        "schedule independent).  record_processing.pre_process_sequences itself (the real caller): batches of 0..9 (thorough ..17) real "
+        "Records (clean, lower case, gapped, IUPAC, gaps/Ns only WITH CDS annotations, dashes only, short, empty; with/without CDS, "
+        "preset skip flags; options minlength, limit, limit_to_record, skip_sanitisation, reuse_results, gene finding on/off/GFF3, a "
+        "gene finder that finds nothing or raises) run with 1, 2, 4 (thorough 1,2,3,4,8,16) configured workers; every result is "
+        "compared FIELD BY FIELD (id, name, description, seq, skip, record_index, original_id, annotations, features, CDS names, "
+        "topology, transl_table) with the one-worker in-process run, and - for batches inside the model's guard (unique ids/names of "
+        "at most 16 characters) - with the Gallina model of the pipeline under LIFO and random schedules of both pools.  cassis "
+        "run_meme/run_fimo (callers of parallel_execute) with stub executables on PATH for 1, 2, 4 workers against an independent "
+        "expectation (sum of return codes, files made).  non-trivial = pool case (effective cpus > 1) with at least two chunks, or "
+        "a raising/timeout/crash case, or a pre-processing batch of >= 2 records with > 1 worker; distinct by flat encoding "
+        "(schedule included)")
 
 
 def describe(flat):
-    return {"function": {1: "parallel_function", 2: "parallel_execute"}.get(flat[1], flat[1]), "payload": flat[2:]}
+    return {"function": {1: "parallel_function", 2: "parallel_execute", 3: "pre_process_sequences"}.get(flat[1], flat[1]),
+            "payload": flat[2:]}
 
 
 def run(chk):
     if not chk.build_and_audit():
         return chk.finish(RULE)
     rng = chk.rng
-    specs = gen_work_cases(rng, chk.tier) + gen_record_cases(rng, chk.tier) + gen_exec_cases(rng, chk.tier)
+    specs = (gen_work_cases(rng, chk.tier) + gen_record_cases(rng, chk.tier) + gen_exec_cases(rng, chk.tier)
+             + gen_preproc_cases(rng, chk.tier) + gen_cassis_cases(rng, chk.tier))
+    # slow cases first, so that they overlap with the rest instead of forming a tail
+    specs.sort(key=lambda sp: 0 if sp["class"] in ("crash", "timeout", "exec-timeout", "mixed-fault") else 1)
     known = {f["id"]: f for f in common.load_known_findings("C18") if f.get("status") == "known"}
     # the implementation runs in helper processes (non-daemonic, so that they may own pools), 4 at a time
     workers = 4
     ctx = multiprocessing.get_context("fork")
-    with concurrent.futures.ProcessPoolExecutor(max_workers=workers, mp_context=ctx) as executor:
-        results = list(executor.map(run_impl, specs, chunksize=1))
+    try:
+        with concurrent.futures.ProcessPoolExecutor(max_workers=workers, mp_context=ctx) as executor:
+            results = list(executor.map(run_impl, specs, chunksize=1))
+    finally:
+        for spec in specs:
+            if spec.get("go") and os.path.exists(spec["go"]):
+                os.unlink(spec["go"])
     cases, impl_outs, meta = [], [], []
     variants = 20 if chk.tier == "quick" else 30
+    # pre_process_sequences: every worker count against the in-process (one worker) run, field by field
+    reference = {spec["batch"]: res for spec, res in zip(specs, results) if spec["kind"] == "preproc" and spec["cfg"] == 1}
     for spec, res in zip(specs, results):
+        if spec["kind"] != "preproc":
+            continue
+        chk.count("class_" + spec["class"])
+        chk.count(f"preproc_workers_{spec['cfg']}")
+        chk.count("preproc_batch_" + str(len(spec["records"])))
+        if res["out"][0] == 1:
+            chk.count("preproc_error_" + common.ERR_NAME.get(res["out"][1], str(res["out"][1])))
+        else:
+            chk.count("preproc_records_skipped", sum(1 for f in res["dump"] if f.get("skip")))
+            chk.count("preproc_records_flagged_contains_no_sequence",
+                      sum(1 for f in res["dump"] if skip_code(f.get("skip")) == 1))
+        ref = reference[spec["batch"]]
+        diff = first_difference(ref["dump"], res["dump"]) if spec["cfg"] != 1 else None
+        if diff is not None:
+            chk.violation("counterexample", f"pre_process_sequences with {spec['cfg']} workers differs from the "
+                          f"in-process run ({json.dumps(diff, default=str)[:300]})",
+                          {"theorem_or_correspondence": "C18_preprocess_workers_irrelevant (records cross the process "
+                                                        "boundary unchanged / same result for every worker count)",
+                           "input": {"records": spec["records"], "options": spec["opts"], "workers": spec["cfg"]},
+                           "difference": diff, "implementation": res["out"][:40], "in_process": ref["out"][:40]})
+        if spec["class"] != "preproc":
+            chk.note_case([PROP, FN_PP, spec["cfg"], spec["batch"]], spec["cfg"] > 1)
+            continue        # outside the model's guard (id rewriting): compared across worker counts only
+        n = len(spec["records"])
+        nchunks = len(chunk_bounds(n, spec["cfg"])) if spec["cfg"] > 1 else 0
+        pairs = [("lifo", lifo_schedule(spec["cfg"], nchunks), lifo_schedule(spec["cfg"], nchunks))] if nchunks else \
+                [("none", [], [])]
+        if nchunks:
+            for _ in range(3 if chk.tier == "quick" else 6):
+                pairs.append(("random", random_schedule(rng, spec["cfg"], nchunks, 0),
+                              random_schedule(rng, spec["cfg"], nchunks, 0)))
+        for name, sched1, sched2 in pairs:
+            flat = enc_pp_case(spec, res, sched1, sched2)
+            cases.append(flat)
+            impl_outs.append(res["out"])
+            meta.append((spec, name))
+            chk.count("schedule_" + name)
+            sample = None
+            if name == "lifo" and n >= 3 and sum(1 for sp in chk.samples if sp.get("class") == "preproc") < 2:
+                sample = {"class": "preproc", "workers": spec["cfg"], "options": spec["opts"],
+                          "records": [[r["id"], r["seq"][:20], len(r["cdses"])] for r in spec["records"]],
+                          "implementation": res["out"][:12]}
+                chk.samples.insert(0, sample)
+            chk.note_case(flat, spec["cfg"] > 1 and n >= 2, None)
+    # cassis run_meme / run_fimo: every worker count against the independent expectation
+    for spec, res in zip(specs, results):
+        if spec["kind"] != "cassis":
+            continue
+        chk.count("class_" + spec["class"])
+        expected = cassis_expected(spec)
+        chk.note_case([PROP, 4, spec["cfg"], spec["fn"] == "meme"] + [hash_dir(d) for d in spec["dirs"]],
+                      len(spec["dirs"]) >= 2)
+        if (res["out"], res["made"]) != expected:
+            chk.violation("counterexample", f"cassis run_{spec['fn']} through parallel_execute with {spec['cfg']} workers: "
+                          f"sum of return codes / files made {[res['out'], res['made']]} differ from the one-after-another "
+                          f"expectation {list(expected)}",
+                          {"theorem_or_correspondence": "C18_execute_order (correspondence only: real child processes)",
+                           "input": spec, "implementation": [res["out"], res["made"]], "expected": list(expected)})
+    for spec, res in zip(specs, results):
+        if spec["kind"] in ("preproc", "cassis"):
+            continue
         cls = spec["class"]
         kind = spec["kind"]
         fn = FN_PE if kind == "exec" else FN_PF
@@ -696,15 +1260,26 @@ def run(chk):
     for i, verdict in enumerate(verdicts):
         if verdict != [1]:
             spec, name = meta[i]
+            if spec["kind"] == "preproc":
+                # the decidable specification compares with the MODEL's in-process pipeline.  The property itself
+                # (workers vs in-process run of the implementation) was decided above, field by field; an output that
+                # equals the implementation's own in-process output but not the model's is a broken correspondence of
+                # the pipeline model (reported below), not a failing input of this property
+                chk.count("preproc_spec_verdict_false")
+                continue
             if spec["class"] == "crash" and spec["timeout"] is None and KNOWN_HANG in known and impl_outs[i] == [1, E_HANG]:
                 continue      # recorded finding; the model transcribes the hang (compared below)
             chk.violation("counterexample", "parallel result differs from the sequential run "
                           f"({describe(cases[i])['function']}, class {spec['class']})",
                           {"theorem_or_correspondence": "C18_order / C18_failure_surfaces (spec_ok on the implementation's output)",
-                           "flat": cases[i], "implementation": impl_outs[i], "input": {k: v for k, v in spec.items() if k != "records"},
+                           "flat": cases[i], "implementation": impl_outs[i],
+                           "input": {k: v for k, v in spec.items() if k != "records" or spec["kind"] == "preproc"},
                            "spec_verdict_on_implementation_output": verdict})
             break
-    model_outs = common.correspondence(chk, cases, impl_outs, spec_fn_offset=SPEC_OFFSET, describe=describe)
+    npp = sum(1 for spec, _name in meta if spec["kind"] == "preproc")      # these cases come first
+    model_outs = common.correspondence(chk, cases[:npp], impl_outs[:npp], spec_fn_offset=None, describe=describe,
+                                       label="pre_process_sequences pipeline: model vs implementation")
+    model_outs += common.correspondence(chk, cases[npp:], impl_outs[npp:], spec_fn_offset=SPEC_OFFSET, describe=describe)
     chk.crosscheck_vm(cases, model_outs)
     chk.extra["implementation_runs"] = len(specs)
     return chk.finish(RULE, trusted_extra=[
@@ -714,5 +1289,24 @@ def run(chk):
 
 def replay(chk, path):
     doc = json.load(open(path))
-    print("model:", common.run_driver([doc["flat"]])[0], "recorded implementation:", doc.get("implementation"))
+    if "flat" in doc:
+        print("model:", common.run_driver([doc["flat"]])[0], "recorded implementation:", doc.get("implementation"))
+        return 0
+    inp = doc.get("input") or {}
+    if "records" in inp and "options" in inp:
+        # pre_process_sequences: the batch again, in-process and with the recorded number of workers
+        base = {"kind": "preproc", "cpus": None, "timeout": None, "batch": 0, "records": inp["records"],
+                "opts": inp["options"], "class": "preproc"}
+        ref = run_impl(dict(base, cfg=1))
+        res = run_impl(dict(base, cfg=inp["workers"]))
+        diff = first_difference(ref["dump"], res["dump"])
+        print("in-process vs", inp["workers"], "workers:", "no difference" if diff is None else json.dumps(diff, default=str))
+        return 0 if diff is None else 1
+    if inp.get("kind") == "cassis":
+        inp["dirs"] = [tuple(d) for d in inp["dirs"]]
+        res = run_impl(inp)
+        expected = cassis_expected(inp)
+        print("implementation:", [res["out"], res["made"]], "expected:", list(expected))
+        return 0 if (res["out"], res["made"]) == expected else 1
+    print("nothing to replay in", path)
     return 0
